@@ -847,7 +847,7 @@ namespace via
           if (!request_.parse(iter, end))
           {
             // if a parsing error (not run out of data)
-            if ((iter != end) || request_.fail())
+            if ((iter != end) || request_.fail() || request_.headers().fail())
             {
               switch (request_.state())
               {
